@@ -192,7 +192,7 @@ func TestBondMachineSharedObjects(t *testing.T) {
 			for _, dg := range pd {
 				t.Logf("%s/%d FINDING parse: %v", c.name, rsize, dg)
 			}
-			if len(defectsOf(pd)) > 0 {
+			if len(pd) > 0 {
 				// retry like a synthesis tool: skip translate_off regions (SystemVerilog assertions in the channel)
 				d2, pd2 := ParseDesignOpts(files, ParseOpts{HonorTranslateOff: true})
 				if len(defectsOf(pd2)) == 0 {
